@@ -91,6 +91,7 @@ def jobs(tier, seed):
     for nt in range(1, 6):
         out.append(('reuse-t%d' % nt, dict(kind='reuse', step=1, order=1, ratio=[2.0, 0.0], nt=nt)))
         out.append(('reuse-t%d-s2' % nt, dict(kind='reuse', step=2, order=2, ratio=[1.6, 0.0], nt=nt)))
+    out.append(('integer-typed-witness', dict(kind='intwitness', step=1, order=1, ratio=[2.0, 0.0], nt=2)))
     for nt in (0, 1, 2, 3):
         for cplx_data in (False, True):
             out.append(('struct-t%d-%s' % (nt, 'c' if cplx_data else 'r'),
@@ -118,6 +119,11 @@ def _cinv(z):
 def run_job(job, kind, step, order, ratio, nt, tier='quick'):
     ex = cm.nd_mods()['ex']
     QUICK_LENGTHS[0] = None
+    if kind == 'intwitness':
+        bad = int_witness_failures(ex)
+        if not job.confirm('integer-typed ratio / sequences give the same weights and values as floats (concrete runs)', not bad):
+            job.violation('int', dict(key='C07:integer-typed-arguments', kind='intwitness', detail=bad[0]))
+        return
     if kind == 'matrix':
         return matrix(job, ex, step, order)
     if kind == 'exact':
@@ -125,6 +131,36 @@ def run_job(job, kind, step, order, ratio, nt, tier='quick'):
     if kind == 'reuse':
         return reuse(job, ex, step, order, _ratio(ratio), nt)
     return struct(job, ex, nt, ratio[1] != 0)
+
+
+def int_witness_failures(ex):
+    """CONCRETE witness runs (not solver evidence): integer-typed step ratios, steps, orders and sequences must behave like the
+    same values as floats (the symbolic runs carry no numpy dtype)"""
+    bad = []
+    for ratio in (2, 4, 10, np.int64(5)):
+        for step in (1, 2):
+            for order in (1, 2, 4):
+                for nt in (1, 2, 3):
+                    ri = ex.Richardson(step_ratio=ratio, step=step, order=order, num_terms=nt)
+                    rf = ex.Richardson(step_ratio=float(ratio), step=float(step) if False else step, order=order, num_terms=nt)
+                    wi, wf = ri.rule(), rf.rule()
+                    if np.shape(wi) != np.shape(wf) or not np.allclose(wi, wf, rtol=1e-12, atol=1e-14):
+                        bad.append('Richardson(step_ratio=%r, step=%d, order=%d, num_terms=%d).rule() = %r; with step_ratio=%r: %r'
+                                   % (ratio, step, order, nt, np.asarray(wi).tolist(), float(ratio), np.asarray(wf).tolist()))
+                        continue
+                    h = float(ratio) ** -np.arange(6.0)
+                    seq_f = (3.0 + sum((j + 1.0) * h ** (order + step * j) for j in range(nt)))[:, None]
+                    a = ri(seq_f, h[:, None])[0]
+                    if not np.allclose(a, 3.0, rtol=0, atol=1e-9):
+                        bad.append('Richardson(step_ratio=%r, step=%d, order=%d, num_terms=%d) maps L + sum a_j h^k_j to %r, L = 3' % (ratio, step, order, nt, np.ravel(a).tolist()))
+    # integer-typed sequences
+    r = ex.Richardson(step_ratio=2.0, step=1, order=1, num_terms=2)
+    seq_i = np.array([[40], [22], [13], [9], [7]])
+    st = 0.5 ** np.arange(5.0)[:, None]
+    a, b = r(seq_i, st), r(seq_i.astype(float), st)
+    if not all(np.allclose(np.asarray(u, dtype=float), np.asarray(w, dtype=float)) for u, w in zip(a[:2], b[:2])):
+        bad.append('Richardson on an integer-typed sequence gives %r, on the same values as floats %r' % (np.ravel(a[0]).tolist(), np.ravel(b[0]).tolist()))
+    return bad
 
 
 def matrix(job, ex, step, order):
@@ -429,6 +465,9 @@ def replay(cex):
             return True, ('Richardson(num_terms=%d) instance first called with a sequence of length %d returns %r for a length-%d sequence; '
                           'a fresh instance returns %r' % (nt, short, a1[0].ravel(), nt + 3, a2[0].ravel()))
         return False, 'reused instance equals fresh instance'
+    if kind == 'intwitness':
+        bad = int_witness_failures(ex)
+        return (True, bad[0]) if bad else (False, 'integer-typed arguments behave like floats')
     if kind == 'alias':
         length, ntv = cex['length'], cex['nt']
         rng = np.random.default_rng(3)
